@@ -82,7 +82,16 @@ def locate(out_lines, marker, terminated):
     if a is None:
         return None
     block = marker in ("block", "custom", "regex")
-    if block and b"*/" not in out_lines[a]:
+    def open_comment_at(k):
+        """is line k inside / the start of a block comment that is not closed on line k?"""
+        for q in range(k, max(-1, k - 4), -1):
+            if b"//" in out_lines[q] and q == k:
+                return False
+            if b"/*" in out_lines[q]:
+                return not any(b"*/" in out_lines[z] for z in range(q, k + 1))
+        return False
+
+    if block and open_comment_at(a):
         # the marker comment itself was re-flowed over several lines (cmt_width): the region starts after its last line
         for k in range(a + 1, min(a + 4, len(out_lines))):
             if b"*/" in out_lines[k]:
@@ -92,7 +101,7 @@ def locate(out_lines, marker, terminated):
         return a, len(out_lines)
     for k in range(a + 1, len(out_lines)):
         if onk in out_lines[k]:
-            if block and b"/*" not in out_lines[k]:
+            if block and b"/*" not in out_lines[k] and b"//" not in out_lines[k]:
                 for q in range(k - 1, max(a, k - 4), -1):
                     if b"/*" in out_lines[q]:
                         k = q
@@ -234,7 +243,8 @@ def check(ctx):
                 if i in (0, len(lines)) or not quick:
                     jobs.append((name, lang, lines, i, marker, "\n", False, "defaults", {}, contents_q[:5] if quick else contents_all, False))
     # single deviations over the read set
-    sweepc = [c for c in CONTENTS if c[0] in ("misindented", "col1-comments", "backslash-cont", "blank-runs", "lone-close-brace", "ws-only-lines")]
+    order = ("misindented", "col1-comments", "backslash-cont", "blank-runs", "lone-close-brace", "ws-only-lines")
+    sweepc = [(n, dict(CONTENTS)[n]) for n in order]
     for name, lang, lines in progs:
         if quick and name not in ("c-basic", "cpp-class", "pawn-basic", "c-switch", "pp-if-inside", "decl-varblock"):
             continue
